@@ -7,6 +7,7 @@
 import Fir.Model.Alpha
 import Fir.Spec.Alpha
 import Fir.Generated.Lists
+import Fir.Generated.Clip
 namespace Fir
 
 def canonF32 (b : Int) : Int :=
@@ -106,5 +107,25 @@ def handleAlphaReject (fs : List (String × String)) : String :=
     | true, false => s!"SPEC-FAIL pixel type {pt}: {got}"
     | false, false => s!"MODEL-DIFF model={model} got={got} ; SPEC-FAIL pixel type {pt}: {got}"
   | _, _, _ => "BAD-REQUEST fields"
+
+/-- `table name=clip8|recip8|recip16 off=<first index> size=<table length> vals=<16 hex digits per entry>`:
+    the constant tables the implementation actually built (read through the hooks) against the
+    *translated* generator functions `Fir.Gen.clip8_table`, `recip_alpha`, `recip_alpha16` -/
+def handleTable (fs : List (String × String)) : String :=
+  match getField fs "name", getNat fs "off", getNat fs "size", (getField fs "vals").bind (parseHexComps · 16) with
+  | some name, some off, some size, some vals =>
+    let spec : Option ((Nat → Nat) × Nat) := match name with
+      | "clip8" => some (Gen.clip8_table, Gen.clip8_table_size)
+      | "recip8" => some (Gen.recip_alpha, Gen.recip_alpha_size)
+      | "recip16" => some (Gen.recip_alpha16, Gen.recip_alpha16_size)
+      | _ => none
+    match spec with
+    | none => "BAD-REQUEST table name"
+    | some (f, n) =>
+      if size != n then s!"MODEL-DIFF table {name}: size model={n} got={size}" else
+      match (List.range vals.size).find? (fun i => f (off + i) != vals[i]!) with
+      | some i => s!"MODEL-DIFF table {name}[{off + i}] model={f (off + i)} got={vals[i]!}"
+      | none => "OK"
+  | _, _, _, _ => "BAD-REQUEST fields"
 
 end Fir
